@@ -157,3 +157,31 @@ func genC17Outcome(g *G) {
 		g.Emit("outcome", g.Pick([]string{"accept", "reject"}), st.String(), joinOr1(c17Ints(ns)), fl)
 	}
 }
+
+// c17Timeout runs the REAL watchExecution of a session that never receives a signature until its signing time-out
+// fires (package variable signingTimeout shortened through a verif accessor; nothing else can end the loop, so the
+// outcome does not depend on timing). Returns "t" (timed out), or what else happened.
+func c17Timeout(exe *btcExecutor.Executor, props []*btcExecutor.BtcTransferProposal) string {
+	old := btcExecutor.VerifC17SetSigningTimeout(time.Millisecond)
+	defer btcExecutor.VerifC17SetSigningTimeout(old)
+	tx := wire.NewMsgTx(wire.TxVersion)
+	tx.AddTxIn(wire.NewTxIn(wire.NewOutPoint(&chainhash.Hash{1}, 0), nil, nil))
+	done := make(chan error, 1)
+	go func() {
+		defer func() {
+			if r := recover(); r != nil {
+				done <- nil
+			}
+		}()
+		done <- exe.VerifC17WatchExecution(context.Background(), func() {}, tx, props, make(chan interface{}), "sess", "m")
+	}()
+	select {
+	case err := <-done:
+		if err != nil {
+			return "t"
+		}
+		return "returned-nil"
+	case <-time.After(10 * time.Second):
+		return "hang"
+	}
+}
